@@ -22,6 +22,27 @@ W = "wasm::WasmKeeper::"
 def check(ctx, cfg):
     r_update_admin(ctx, cfg)
     r_migrate(ctx, cfg)
+    r_layering(ctx, cfg)
+
+
+def r_layering(ctx, cfg):
+    """who may rewrite a contract's registry record or run a migrate entry point"""
+    F = cfg.facts
+    R = "C12.R4"
+    q.who_may_call(ctx, R, F, W + "save_contract", {W + "register_contract", W + "update_admin", W + "execute_wasm"},
+                   "the registry is written on instantiation, admin change and migration only")
+    q.who_may_call(ctx, R, F, W + "call_migrate", {W + "execute_wasm"}, "migrate entry points run from the Migrate arm only")
+    q.who_may_call(ctx, R, F, W + "update_admin", {W + "execute_wasm"}, "admin changes come from UpdateAdmin / ClearAdmin only")
+    # the registry map itself is written by save_contract only
+    P = cfg.prov
+    writers = set()
+    for f in F.user_fns():
+        for bid, t in f.calls():
+            c = t["callee"]
+            if c["key"].startswith("cw_storage_plus::Map::") and c["name"] in ("save", "remove", "update", "clear") and t["args"]:
+                if peel(P.operand(f, t["args"][0], (bid, "t"))) == ("item", "wasm::CONTRACTS"):
+                    writers.add(f.key.split("::{closure")[0])
+    ctx.ob(R, "wasm::CONTRACTS", "single-writer", writers == {W + "save_contract"}, "CONTRACTS is written by %s" % sorted(writers), sample=str(sorted(writers)))
 
 
 def _admin_guard(P, f, node, addr_origin):
